@@ -35,6 +35,10 @@ pub const KEY_IDS: [u64; 7] = [42, 1, 0, u64::MAX, 123456789, 7, 1 << 32];
 
 #[derive(Clone, Debug, Default)]
 pub struct ServerState {
+    /// Some(status): the service is down for this lifetime and answers everything with it
+    pub outage_status: Option<u16>,
+    /// the outage answers carry no X-Retry-After header, ever
+    pub outage_plain: bool,
     /// (key id, index into keys()) — what the client is configured with
     pub client_latest: (u64, usize),
     pub client_historical: Vec<(u64, usize)>,
@@ -224,10 +228,19 @@ fn gen_updatecheck_ok(w: &mut World, key: &str) -> Value {
                         3 => format!("http://dl{i}.example.test/noslash"),
                         _ => format!("fuchsia-pkg://dl{i}.example.test//"),
                     };
-                    json!({ "codebase": cb })
+                    // members the protocol does not define for a url object are ignored
+                    match w.draws.draw(&format!("{key}/url{i}/ext"), 6) {
+                        4 => json!({ "codebase": cb, "codebasediff": format!("http://dl{i}.example.test/diff/") }),
+                        5 => json!({ "region": "eu", "codebase": cb }),
+                        _ => json!({ "codebase": cb }),
+                    }
                 })
                 .collect();
-        u.insert("urls".into(), json!({ "url": urls }));
+        if w.draws.draw(&format!("{key}/urls.ext"), 6) == 5 {
+            u.insert("urls".into(), json!({ "url": urls, "x_urls_ext": [1, {"a": null}] }));
+        } else {
+            u.insert("urls".into(), json!({ "url": urls }));
+        }
     }
     let absent = w.profile.srv.manifest_absent_permille;
     if !w.draws.chance(&format!("{key}/nomanifest"), absent) {
@@ -276,10 +289,13 @@ fn gen_updatecheck_ok(w: &mut World, key: &str) -> Value {
             5 => "v2 (not a version)".to_string(),
             _ => "UNKNOWN".to_string(),
         };
-        u.insert(
-            "manifest".into(),
-            json!({"version": ver, "actions": {"action": actions}, "packages": {"package": pkgs}}),
-        );
+        let mut mf = json!({"version": ver, "actions": {"action": actions}, "packages": {"package": pkgs}});
+        if w.draws.draw(&format!("{key}/manifest.ext"), 6) == 5 {
+            mf["x_manifest_ext"] = json!({"k": "v"});
+            mf["packages"]["x_packages_ext"] = json!(true);
+            mf["actions"]["x_actions_ext"] = json!(0);
+        }
+        u.insert("manifest".into(), mf);
     }
     let ex = w.profile.srv.extra_attrs_permille;
     if w.draws.chance(&format!("{key}/uextra"), ex) {
@@ -330,6 +346,13 @@ pub fn gen_doc(w: &mut World, key: &str, req: &SentReq) -> Value {
             ids.insert(pos, ("unknown-app-id".to_string(), None));
         }
     }
+    let dup_rate = w.profile.srv.dup_app_permille;
+    if !ids.is_empty() && w.draws.chance(&format!("{key}/applist.dup"), dup_rate) {
+        let k = w.draws.draw(&format!("{key}/applist.dup.k"), ids.len() as u64) as usize;
+        let again = ids[k].clone();
+        ids.push(again);
+        w.stat("server.app_id_listed_twice");
+    }
     let mut apps = vec![];
     for (i, (id, reqapp)) in ids.iter().enumerate() {
         let akey = format!("{key}/app#{i}");
@@ -356,8 +379,19 @@ pub fn gen_doc(w: &mut World, key: &str, req: &SentReq) -> Value {
                     m.insert("updatecheck".into(), u);
                 }
                 2 => {
-                    let errs = ["error-unknownApplication", "error-internal", "error-hash", "error-osnotsupported"];
-                    let e = errs[w.draws.draw(&format!("{akey}/err"), 4) as usize];
+                    // unknown status strings are errors whatever they look like: with characters that
+                    // need a JSON escape, differing from a known token by case only, not ASCII
+                    let errs = [
+                        "error-unknownApplication",
+                        "error-internal",
+                        "error-hash",
+                        "error-osnotsupported",
+                        "error-\"quota\" exceeded",
+                        "error-tab\there\\and backslash",
+                        "NoUpdate",
+                        "error-\u{e9}\u{6e20}",
+                    ];
+                    let e = errs[w.draws.draw(&format!("{akey}/err"), errs.len() as u64) as usize];
                     m.insert("updatecheck".into(), json!({"status": e, "info": "x"}));
                 }
                 3 => {
@@ -624,7 +658,11 @@ pub fn deliver(w: &mut World, id: u64, label: &str) {
         None => return,
     };
     let weights = w.profile.net.weights();
-    let fault = w.draws.weighted(&format!("{label}/fault"), &weights);
+    let mut fault = w.draws.weighted(&format!("{label}/fault"), &weights);
+    // an outage: for this whole lifetime every exchange is answered with one and the same status
+    if w.server.outage_status.is_some() {
+        fault = 5;
+    }
     let fault_name = NET_KINDS[fault];
     if fault != 0 {
         w.stat(&format!("net.{fault_name}"));
@@ -691,6 +729,9 @@ pub fn deliver(w: &mut World, id: u64, label: &str) {
         if fault == 5 {
             let statuses = [500u16, 503, 404, 400, 429, 301, 304, 100, 204, 201, 599, 403];
             status = statuses[w.draws.draw(&format!("{label}/status.v"), statuses.len() as u64) as usize];
+            if let Some(st) = w.server.outage_status {
+                status = st;
+            }
             if w.draws.draw(&format!("{label}/status.emptybody"), 2) == 1 {
                 body = vec![];
                 doc = None;
@@ -699,7 +740,8 @@ pub fn deliver(w: &mut World, id: u64, label: &str) {
         }
         headers = vec![("content-type".to_string(), b"application/json".to_vec())];
         let ra = w.profile.net.retry_after;
-        if w.draws.chance(&format!("{label}/retry_after"), ra) {
+        // (a service that is simply down sends no header at all, for as long as it is down)
+        if !w.server.outage_plain && w.draws.chance(&format!("{label}/retry_after"), ra) {
             let (v, class) = retry_after_value(w, label);
             w.stat(&format!("net.retry_after.{class}"));
             headers.push(("x-retry-after".to_string(), v.clone()));
